@@ -240,3 +240,76 @@ func verifNodeOf2x(path string) *verifNode {
 	}
 	return nil
 }
+
+// H_kq_fd_history: STEPS operations out of {Add, Remove, a change inside the
+// watched directory with its notifications delivered}; after every step the
+// descriptor accounting K1/K2 holds and WatchList shows only user-added paths;
+// finally everything is removed and nothing is left.
+func H_kq_fd_history() {
+	verifQReset()
+	verifAddNode("/d", nDir, "")
+	var m [3]verifEntModel
+	for i, name := range verifEntNames {
+		k := [...]int{nAbsent, nFile}[verifChoose("init", 2)]
+		if i == 2 {
+			k = nAbsent
+		}
+		verifAddNode(name, k, "")
+		m[i] = verifEntModel{kind: k, known: k != nAbsent}
+	}
+	verifAddNode("/f", nFile, "")
+	wt, w := verifKqNew()
+	args := [...]string{"/d", "/f", "/d/a"}
+	var added [3]bool
+	steps := verifParam("STEPS")
+	for s := 0; s < steps; s++ {
+		switch verifChoose("step", 3) {
+		case 0:
+			i := verifChoose("add", len(args))
+			if n := verifNodeOf(args[i]); n != nil && n.kind == nFifo {
+				continue // Add of a named pipe is accepted but not watched (documented limitation)
+			}
+			if wt.Add(args[i]) == nil {
+				added[i] = true
+			}
+		case 1:
+			i := verifChoose("remove", len(args))
+			err := wt.Remove(args[i])
+			if added[i] && verifNodeOf(args[i]) != nil {
+				verifAssert(err == nil, "Remove of an added, existing path succeeds")
+			}
+			if err == nil {
+				added[i] = false
+			}
+		case 2:
+			if added[0] {
+				_ = verifDirOp(&m, "/d")
+				verifCollect(wt, nil)
+				// a watched entry that was deleted/renamed away is no longer a user watch
+				if verifNodeOf("/d/a") == nil {
+					added[2] = false
+				}
+			}
+		}
+		verifK1(w, " after a history step")
+		for _, p := range wt.WatchList() {
+			ok := false
+			for i, a := range args {
+				ok = ok || (p == a && added[i])
+			}
+			verifAssert(ok, "WatchList shows a path the user did not add (or that was removed)")
+		}
+	}
+	for i, a := range args {
+		if added[i] {
+			_ = wt.Remove(a)
+		}
+	}
+	verifK1(w, " after removing everything")
+	verifAssert(len(wt.WatchList()) == 0, "WatchList is empty once everything has been removed")
+	verifAssert(verifOpenCount() == 0, "no descriptor stays open once everything has been removed")
+	verifAssert(wt.Close() == nil, "Close")
+	verifQuiesce()
+	verifAssert(!verifQ.kqOpen && !verifQ.pipeROpen && !verifQ.pipeWOpen && verifQ.badClose == 0, "Close releases the kqueue and the pipe, nothing closed twice")
+	verifReach("kq-fd-history")
+}
